@@ -87,6 +87,19 @@ func c05Cells(tier string) []Cell {
 		}
 	}
 
+	// the window sequences once more with SyncRead on (the read that decides "fresh" is then the one inside the critical
+	// section), starting with a successful build - of a value or of nil
+	for front := 0; front < 3; front++ {
+		for _, su := range []bool{false, true} {
+			for _, init := range []string{"A", "S"} {
+				for _, first := range []int{0, 13} {
+					c := FCfg{Front: front, SU: su, SR: true, MS: true, Init: init + "A", FailC: "00", Rand: 1, BCount: 1, Tags: []string{"window", fmt.Sprint(maxLen), fmt.Sprint(first)}}
+					cells = append(cells, Cell{ID: c.ID()})
+				}
+			}
+		}
+	}
+
 	return cells
 }
 
